@@ -2,10 +2,18 @@ HOOKS = {
     'guard': 'cfg(kani) / cfg(rtcm_rs_verif)',
     'enable': 'Kani sets cfg(kani) itself; native replay builds use RUSTFLAGS="--cfg rtcm_rs_verif"; the Verus engine needs no hook (it extracts text)',
     'baseline_off_cmd': 'cd /repo && cargo test --workspace --no-fail-fast --offline',
-    'source_commits': [],
+    'source_commits': ['14eeca8'],
     'add_only': True,
 }
+K_NOTE = ('Trusted: Kani 0.68 + CBMC 6.11 + CaDiCaL and Kani\'s model of rustc MIR (overflow checks on); harness oracles in /verif/kani (loop-free, written from the property text); '
+          'unwinding assertions on. Harnesses are compiled inside the real crate through the cfg(kani) include hook.')
+S_NOTE = ('Assumes the IEEE-754 standard model for f32/f64 + - * / (relative error <= 2^-24 / 2^-53, rounding monotone and exact on representable constants, no underflow/overflow: side conditions checked), '
+          'float->int = truncation, int->float exact below the mantissa (checked); trusts z3 4.8.12 and the shape parser of the expanded df! bodies (any other shape -> exit 2, then bounded native search as stand-in).')
 ENGINES = [
+    {'name': 'K', 'path': 'tools/kani_engine.py', 'serves_properties': ['C07', 'C08'],
+     'kind_free_text': 'Kani 0.68 (CBMC/CaDiCaL) complete harnesses on the real compiled crate: put/parse per carrier, every integer data field, encode/decode totality of every field'},
+    {'name': 'S', 'path': 'tools/dfvc.py', 'serves_properties': ['C08', 'C11'],
+     'kind_free_text': 'generated verification conditions (z3, QF_LIRA) from the expanded df! bodies of all float data fields under the IEEE-754 standard model'},
     {'name': 'V', 'path': 'tools/vgen.py', 'serves_properties': ['C03', 'C05', 'C06', 'C13', 'C18'],
      'kind_free_text': 'Verus 0.2026.09.13 (Z3) on functions cut out of /repo (source files or -Zunpretty=expanded) on every run, contracts spliced in from contracts/*.vt'},
 ]
@@ -29,5 +37,14 @@ CHECKS = {
     'C18': dict(engine='V', level='proof', design_ref='4/C18', technique='Verus: each table function re-emitted verbatim as spec twin; bijection/range/total-order lemmas over the twins; cmp postcondition; reference positions',
                 text='For all seven constellations (discovered from the expansion): to_sig/to_id are proved equal to spec twins that are their own match tables, lemmas prove the bijection in both directions for all u8 and all (u8,char), positions within 2..=32, is_valid == in table, Ord::cmp == the order of positions with unrecognised last and a lexicographic tie-break, reflexive/antisymmetric/transitive; the RTCM/RINEX reference positions are checked one-directionally.',
                 note=V_NOTE + ' <char as Ord>::cmp has an assumed specification (code-point order). Reference positions are transcribed from RTCM 10403.3 by hand.'),
+    'C07': dict(engine='K', level='other', design_ref='4/C07', technique='Kani complete (loop-free oracle, symbolic bit index) harnesses on Assembler::put / Parser::parse per carrier type',
+                text='For each of the carrier types the crate instantiates (inventory from the expansion): put and parse are checked by CBMC for ALL values, ALL widths 1..=BITS, ALL bit offsets/alignments, ALL background contents and a symbolic buffer length, against the statement (exact field bits MSB first, two\'s complement / sign-magnitude, every other bit unchanged via a symbolic bit index, overflow => BufferOverflow with buffer and cursor unchanged, parse(put(v)) == v). Complete in every dimension except the buffer length, which is symbolic up to a stated window (quick: carrier bytes + 3; thorough: 20-64 bytes) => labelled bounded(window), not counted as an unbounded proof.',
+                note=K_NOTE + ' Locality of put/parse in the buffer beyond the window is not mechanised.'),
+    'C08': dict(engine='S+K', level='proof', design_ref='4/C08', technique='per data field: Kani complete harness (integer fields, all 2^w patterns symbolic) + generated z3 VCs under the IEEE standard model (float fields), over L0 contracts',
+                text='Inventory of all df! fields from the expansion. Integer-typed fields: Kani proves on the real decode/encode that every w-bit pattern decodes (no panic, exact width) and re-encodes to the same bits, None <=> the one invalid pattern. Float-typed fields: symbolic execution of the expanded encode/decode bodies into linear real arithmetic with bounded relative rounding error; z3 proves encode(decode(p)) == p for every non-invalid pattern of every width up to 38 bits, plus structural obligations (same carrier/width/invalid marker/grid on both sides). L0 bit packing from unit l0bits.',
+                note=S_NOTE + ' ' + K_NOTE + ' L0 window bound as in C07.'),
+    'C11': dict(engine='S', level='proof', design_ref='4/C11', technique='generated z3 VCs (QF_LIRA) per float field over real inputs: in-range => accepted and not wrapped, chosen integer within 1/2 + slack of the exact quotient, decoded error <= R/2 + 16u(|x|+|B|+R), monotone by structure',
+                text='For every float field and every real x between the smallest and largest representable value: encode accepts, the written integer is in range and not the invalid marker, it is one of the two neighbours of (x-B)/R, and decode(encode(x)) differs from x by at most half a step plus a stated float slack. Quantified over all reals in range (no sampling).',
+                note=S_NOTE),
 }
 NOT_APPLICABLE = {}
